@@ -190,6 +190,7 @@ VArr(len) == [k |-> "arr", len |-> len]
 VObj(len) == [k |-> "obj", len |-> len]
 VRegex(s) == [k |-> "regex", s |-> s]
 VFn == [k |-> "fn"]
+VNative == [k |-> "native"]     \* a built-in function (printf, num, json): only ever the left operand of `is`
 Kinds == {"num", "str", "bool", "null", "unset", "arr", "obj", "regex", "fn"}
 
 \* ------------------------------------------------- 3.1 the three coercions
@@ -275,7 +276,13 @@ TypeName(v) ==
     [] v.k = "arr" -> "array" [] v.k = "obj" -> "object" [] v.k = "regex" -> "regex"
     [] v.k = "fn" -> "function" [] v.k = "null" -> "null" [] v.k = "unset" -> "unknown"
 TypeNames == {"number", "string", "bool", "array", "object", "regex", "function", "null", "unknown"}
-IsOp(v, name) == Ok(VBool(name = TypeName(v)))                  \* any other identifier: false
+\* any identifier other than the nine type names gives false, whatever v is (the names are
+\* case-sensitive; internal tag names such as nil or nativefunction are NOT type names);
+\* what the nine names say about a built-in function is not fixed by the statement
+IsOp(v, name) ==
+  IF name \notin TypeNames THEN Ok(VBool(FALSE))
+  ELSE IF v.k = "native" THEN Unfixed
+  ELSE Ok(VBool(name = TypeName(v)))
 
 \* ------------------------------------------------------------- 3.7 ~ and !~
 \* The RE2 engine is outside the model.  A pattern without metacharacters is a
